@@ -21,4 +21,6 @@ package s3event
 
 //@ func createEventSchema
 //@   frame none
+// the record outlives the request (it is sent by a goroutine): bucket and key are cut out of a copy of the request path
+//@   at-call strings.Split {C19} [the-record-does-not-alias-the-request-path] requires ownedstr($0)
 //@   ensures {C19,C20} [one-record] len(ret0.Records) == 1
